@@ -172,7 +172,7 @@ def run(tier, seed):
     nm = 64 if thorough else 16
     mtasks = []
     for s in range(nm):
-        ops, nodes, n = (120, 12, 6) if s % 2 == 0 else (25, 5, 40)
+        ops, nodes, n = (40, 6, 3) if s % 2 == 0 else (15, 4, 10)
         mtasks.append(["cargo", "+nightly", "miri", "run", "--offline", "-q", "--", "random", str(seed * 1000 + 900 + s), str(n), str(ops), str(nodes)])
     # build once (serial) so the parallel runs do not fight for the build lock
     rc, out, err = _run(["cargo", "+nightly", "miri", "run", "--offline", "-q", "--", "random", "1", "1", "5", "2"], env=menv, cwd=crate, timeout=1800)
